@@ -495,7 +495,7 @@ class TanhSinh(OneDGrid):
             raise ValueError(f"Argument npoints must be an odd integer, given {npoints}")
 
         # compute summation indices & angle values
-        j = int((1 - npoints) / 2) + np.arange(npoints)
+        j = int((1 - int(npoints)) / 2) + np.arange(npoints)
         theta = j * delta
 
         points = np.tanh(0.5 * np.pi * np.sinh(theta))
